@@ -83,6 +83,9 @@ CutBodiesAll ==
   \cup {AndG(<<AndG(<<l1, l2>>), l3>>) : l1 \in CutLitsS, l2 \in CutLitsS, l3 \in CutLitsS}
   \cup {AndG(<<l3, AndG(<<l1, l2>>)>>) : l1 \in CutLitsS, l2 \in CutLitsS, l3 \in {Call(q1(X)), pr(X)}}
   \cup {AndG(<<OrG(<<AndG(<<l1, l2>>), l3>>), l4>>) : l1 \in {CutG, Call(q1(X))}, l2 \in {CutG, Call(r1(X)), Call(q1(X))}, l3 \in {Call(r1(X))}, l4 \in {Call(r1(X)), Call(q1(X)), FailG}}
+  (* three alternatives: the cut in the middle or the last one, after an alternative that failed or answered *)
+  \cup {OrG(<<l1, AndG(<<l2, l3>>), l4>>) : l1 \in {Call(q1(X)), FailG, UnifyG(X, b)}, l2 \in {CutG, Call(r1(X))}, l3 \in {CutG, FailG, Call(q1(X))}, l4 \in {Call(r1(X)), pr(X)}}
+  \cup {OrG(<<l1, l2, l3>>) : l1 \in CutLitsS, l2 \in CutLitsS, l3 \in {CutG, Call(r1(X)), FailG}}
   \cup {CutG}
 CutBodies == {bd \in CutBodiesAll : HasCutG(bd) \/ (bd.g = "and" /\ \E i \in DOMAIN bd.gs : bd.gs[i] = Call(c1(X)))}
 CalledCut == <<Clause(c1(X), AndG(<<Call(q1(X)), CutG>>)), Fact(c1(c))>>
@@ -168,7 +171,11 @@ ListProg ==
      Clause(Cx("both", <<X, L, R_>>), AndG(<<Call(Mem(X, L)), Call(Mem(X, R_))>>)),
      Clause(Cx("cnt", <<L, N>>), Bip("count", <<L, N>>)),
      Clause(Cx("inc", <<L, R_>>), Bip("include", <<Cx("f", <<Anon>>), L, R_>>)),
-     Clause(Cx("apb", <<L, R_>>), Bip("append", <<L, Atom("z"), R_>>)) >>
+     Clause(Cx("apb", <<L, R_>>), Bip("append", <<L, Atom("z"), R_>>)),
+     (* a goal whose argument is a list with a tail variable against a head of the same shape *)
+     Clause(Cx("wrap", <<T_>>), Call(Cx("keep", <<LstT(<<a>>, T_)>>))),
+     Clause(Cx("keep", <<LstT(<<H>>, T_)>>), Call(Cx("item", <<T_>>))),
+     Fact(Cx("item", <<Lst(<<b, c>>)>>)), Fact(Cx("item", <<Lst(<<Atom("d")>>)>>)) >>
 L1 == Lst(<<a, b, c>>)    L2 == Lst(<<b, a>>)   L3 == Lst(<<Cx("f", <<a>>), b, Cx("f", <<c>>)>>)
 ListQueries ==
   { Mem(Z, L1), Mem(b, L1), Mem(Z, EmptyList), Mem(a, LstT(<<Z>>, W)), Mem(Cx("f", <<Z>>), L3),
@@ -179,7 +186,8 @@ ListQueries ==
     Cx("both", <<Z, L1, L2>>), Cx("both", <<Z, L1, Lst(<<Z>>)>>),
     Cx("cnt", <<L1, Z>>), Cx("cnt", <<LstT(<<a>>, Anon), Z>>), Cx("inc", <<L3, Z>>), Cx("apb", <<L2, Z>>),
     Cx("apb", <<Lst(<<a, Lst(<<b>>)>>), Z>>), Mem(Lst(<<Z>>), Lst(<<Lst(<<a>>), b, Lst(<<c>>), EmptyList>>)),
-    Mem(EmptyList, Lst(<<Lst(<<a>>), EmptyList>>)), App(Lst(<<EmptyList>>), Lst(<<EmptyList>>), Z) }
+    Mem(EmptyList, Lst(<<Lst(<<a>>), EmptyList>>)), App(Lst(<<EmptyList>>), Lst(<<EmptyList>>), Z),
+    Cx("wrap", <<Z>>), Cx("wrap", <<Lst(<<Atom("x")>>)>>), Cx("wrap", <<T_>>), Cx("keep", <<LstT(<<Z>>, T_)>>) }
 ProgsLists == PQ(ListProg, ListQueries)
 
 (* ------------------------------ slice: aliasing / names ----------------- *)
